@@ -61,6 +61,8 @@ class Watch:
                                           # even when two deliveries are due at the very same instant)
         self.pushed = 0
         self.fault_at = {}         # event ordinal -> fault spec (stream faults at position k)
+        self.error_codes = []      # codes of the ERROR events pushed into this stream
+        self.end_consumed = False  # the client has read the stream up to its server-side end
 
     def matches(self, body):
         return self.namespace is None or self.namespace == body.get('metadata', {}).get('namespace')
@@ -95,6 +97,8 @@ class Watch:
         self.not_before = when
         data = (json.dumps(ev) + '\n').encode()
         obj = ev.get('object', {})
+        if ev.get('type') == 'ERROR' and isinstance(obj, dict):
+            self.error_codes.append(obj.get('code'))
         meta = obj.get('metadata', {}) if isinstance(obj, dict) else {}
         rec = (ev.get('type'), meta.get('resourceVersion'), meta.get('uid'))
         self._enqueue(when, data, rec)
@@ -130,6 +134,8 @@ class FakeContent:
             return
         while True:
             item = await w.queue.get()
+            if (item is None or isinstance(item, BaseException)) and not w.aborted:
+                w.end_consumed = True
             if item is None:
                 return
             if isinstance(item, BaseException):
@@ -546,6 +552,7 @@ class FakeCluster:
                 await asyncio.sleep(dt)
 
         effects = [f.spec for f in self.faults if f.take(req)]
+        req['stream_faults'] = [e for e in effects if e.get('do') == 'stream']     # applied to the stream once it is open
         await pause(self.api_latency(req))
         for eff in effects:
             if eff['do'] == 'latency':
@@ -759,13 +766,8 @@ class FakeCluster:
         self.all_watches.append(w)
         rsp = FakeResponse(200, None, watch=w)
         # stream faults registered for this watch (by ordinal of watch requests on this resource)
-        for f in self.faults:
-            if f.spec.get('do') == 'stream' and f.matches(req):
-                k = f.seen
-                f.seen += 1
-                if f.spec.get('nth', 0) <= k < f.spec.get('nth', 0) + f.spec.get('count', 1):
-                    f.fired += 1
-                    w.fault_at[f.spec.get('at', 0)] = f.spec
+        for spec in req.get('stream_faults') or []:
+            w.fault_at[spec.get('at', 0)] = spec
         if since is not None and int(since) < self.horizon[rkey]:
             w.push({'type': 'ERROR', 'object': {'kind': 'Status', 'apiVersion': 'v1', 'status': 'Failure', 'code': 410,
                                                  'reason': 'Expired', 'message': f'too old resource version: {since} ({self.horizon[rkey]})'}})
